@@ -156,8 +156,8 @@ m("dot-digit-without-peekok", ["C03"], "break", "lexer.go",
   "		if !nextDotIdent && l.peekOk(1) && char.IsDigit(l.peek(1)) {", "		if !nextDotIdent && char.IsDigit(l.peek(1)) {",
   "a lone '.' at end of input indexes past the buffer")
 m("hash-comment-skips-two", ["C03", "C16"], "break", "lexer.go",
-  "	pos := token.Pos(l.pos)\n	for !l.eof() {\n		if l.slice(0, len(end)) == end {",
-  "	pos := token.Pos(l.pos)\n	l.skipN(2)\n	for !l.eof() {\n		if l.slice(0, len(end)) == end {",
+  "	case r == '#':\n		return l.skipCommentUntil(1, \"\\n\", false, noPanic)",
+  "	case r == '#':\n		return l.skipCommentUntil(2, \"\\n\", false, noPanic)",
   "'#' is one byte: the byte after it is skipped unexamined and '#' as the last byte moves the cursor past the end")
 m("comment-scan-inplace", ["C03", "C14", "C11", "C12", "C16"], "keep", "lexer.go",
   "	for !l.eof() {\n		if l.slice(0, len(end)) == end {\n			l.skipN(len(end))\n			return false\n		}\n		l.skip()\n	}\n	if mustEnd {",
@@ -293,6 +293,14 @@ m("unicode-escape-ascii-fastpath", ["C14", "C15", "C01"], "keep", "lexer.go",
 m("unicode-escape-latin1-fastpath", ["C14", "C15"], "break", "lexer.go",
   "				var buf [utf8.MaxRune]byte\n				n := utf8.EncodeRune(buf[:], rune(u))\n				content = append(content, buf[:n]...)",
   "				if u <= 0xFF {\n					content = append(content, byte(u))\n				} else {\n					var buf [utf8.UTFMax]byte\n					n := utf8.EncodeRune(buf[:], rune(u))\n					content = append(content, buf[:n]...)\n				}")
+
+
+m("operator-skip-zero", ["C13", "C03"], "break", "lexer.go",
+  "		case l.peekIs(1, '<'):\n			l.skipN(2)\n			l.Token.Kind = \"<<\"",
+  "		case l.peekIs(1, '<'):\n			l.skipN(2)\n			l.Token.Kind = \"<<\"\n		case l.peekIs(1, '\\x00'):\n			l.Token.Kind = token.TokenBad", "a new arm that forgets to consume: an empty <bad> token, the recovery loops spin")
+m("ident-scan-from-one", ["C13"], "keep", "lexer.go",
+  "	if char.IsIdentStart(l.peek(0)) {\n		i := 0\n		for l.peekOk(i) && char.IsIdentPart(l.peek(i)) {",
+  "	if char.IsIdentStart(l.peek(0)) {\n		i := 1\n		for l.peekOk(i) && char.IsIdentPart(l.peek(i)) {")
 
 def sh(cmd, cwd=None):
     return subprocess.run(cmd, shell=True, cwd=cwd, capture_output=True, text=True)
